@@ -5,12 +5,12 @@ import random
 from collections import Counter
 
 from .. import gen, sem
-from ..snapshot import CLASS_NAMES, REACTION, STEREO, build, pg_from_json, pg_to_json
+from ..snapshot import CLASS_NAMES, DerivationWrong, REACTION, STEREO, build, build_case, pg_from_json, pg_to_json
 
 LEVEL = "exploration"
 RULE = (
     "(i) independent pairs of small same-class graphs (<=7 atoms, tiny element alphabets; about half built as "
-    "shuffled rebuilds, optionally mutated); (ii) single-feature mutations of larger graphs (element, bond "
+    "shuffled rebuilds, optionally mutated; 10 % 1-WL-indistinguishable pairs: unions of regular components, random 3-/4-regular one-element graphs vs relabelled copies or 2-switches of themselves); (ii) single-feature mutations of larger graphs (element, bond "
     "moved/added/removed, bond role, inverted centre, swapped ligands incl. placeholders, E/Z flip, stereo-change "
     "edits, formed<->broken swap; 12 % of these on 20-110 atom chains, macrocycles, big random graphs and RDKit molecules); (iii) all 12 ordered cross-class pairs built from one snapshot. Fully specified "
     "parities. Truth = independent backtracking search (sem.iter_isos) for a bijection preserving elements, bonds, "
@@ -61,6 +61,13 @@ def gen_cases(ctx):
             else:
                 b = gen.random_pg(rng, cls, n_range=(len(a["atoms"]),) * 2, alphabet=alpha, p_stereo=0.7, allow_isolated=False)
             yield {"kind": "indep", "cls": cls, "a": pg_to_json(a), "b": pg_to_json(b), "mut": None, "bseed": rng.randrange(1 << 30)}
+        elif j == 8 and rng.random() < 0.4:  # dense regular one-element graphs vs a relabelled copy or a 2-switch of themselves
+            a = gen.random_regular_pg(rng, cls)
+            if a is None:
+                continue
+            b = a if rng.random() < 0.4 else (gen.two_switch(rng, a) or a)
+            b = sem.pg_relabel(b, gen.random_bijection(rng, b))
+            yield {"kind": "wl-hard", "cls": cls, "a": pg_to_json(a), "b": pg_to_json(b), "mut": None, "bseed": rng.randrange(1 << 30)}
         elif j == 8:  # 1-WL-hard pairs: unions of regular components that colour refinement cannot separate
             group = rng.choice(gen.WL_GROUPS)
             ca = rng.choice(group)
@@ -165,7 +172,14 @@ def check_case(ctx, case):
     b = pg_from_json(case["b"])
     cls = case["cls"]
     descs = [d for g in (a, b) for d in list(g["astereo"].values()) + list(g["bstereo"].values()) + [x for v in list(g["achange"].values()) + list(g["bchange"].values()) for x in v.values()]]
-    ga, gb = build(a, rng=brng), build(b, rng=brng)
+    try:  # seed-chosen provenance (direct build, subgraph, compose, relabel, removals, copies, JSON)
+        ga, via = build_case(a, case["bseed"])
+        gb, _ = build_case(b, case["bseed"] // 15)
+    except DerivationWrong as e:
+        ctx.violate(f"C02/derived-input-differs/{cls}/{e.via}", f"deriving the input graph: {e}", case)
+        ctx.case()
+        return
+    ctx.count(f"via:{via}")
     truth = sem.isomorphic(a, b, budget=1_500_000)
     na, nb = sem.pg_neighbors(a), sem.pg_neighbors(b)
     nontrivial = (
